@@ -202,7 +202,9 @@ def def_(name, func, context):
     def wrapper(*args, **kwargs):
         return func(*args, **kwargs)
 
-    context.register_function(wrapper)
+    # the name is the one calls will use: it must not go through the
+    # context's naming convention (my_func would be stored as myFunc)
+    context.register_function(wrapper, name=name.rstrip('_'))
     return context
 
 
